@@ -10,6 +10,11 @@
     capacity, server list; by field and by ApplyConfig with its re-dial); two more broken designs are refuted: the
     default license taken once and kept across a configuration change (HeaderRight), a full queue that accepts by
     evicting the oldest accepted pack (NoLossSafe).
+    MC_OneWay_multi / _qmulti: two collector addresses, each listener going down and coming back on its own (a dial ends
+    at ANY configured collector that is listening and fails only if none is), <= 3 faults, and a peer that STALLS in the
+    middle of a socket write (the write deadline expires; the peer is still there); the direct quick configuration
+    explores stalls with two senders too.  Two more broken designs are refuted: a dial loop that does not cover the whole
+    server list (Recovers), a flush whose deadline expired resetting the writer onto the same connection (FramesWhole).
 (A) Trace_OneWay: the real OneWayTcpClient against a scripted loopback collector: concurrent senders, queue mode
     (SendAndClear and the background worker), cut scripts, listener outages, frames larger than the writer buffer;
     every pack goes in through one of the public entry points (Send, SendFlush false/true) with plain or decorated
@@ -17,7 +22,11 @@
     while the drainer is not running, parked in a send or parked in a refused dial; the configuration (default license,
     capacity, server list) changes between sends by assignment to the exported fields and by ApplyConfig (one Config
     event carrying what the client did inside: connection dropped? dialled, with which result?; the specification
-    decides whether that is possible there).
+    decides whether that is possible there); 2..3 scripted collectors (server addresses) going down and coming back
+    independently with the server list re-ordered / shortened / restored (gen multi: every dial result is judged against
+    the listeners of ALL configured collectors); a collector that stalls in the middle of a frame until the client's
+    write deadline expires, and resumes (gen stall: the expired deadline is reported by the client, tmo; what the
+    stalled connection carried in the end must still be whole frames and at most one cut frame at its END).
     Hook events are sequenced under the send lock by one atomic counter.  What the collector read on every connection
     is a prophecy (kernel timing is not observable); the specification decides whether the outcome each socket write
     reported is allowed together with what arrived.
@@ -34,7 +43,31 @@ MODE_ONLY = {
 
 
 # steps of the deliberately broken designs (enabled only in the configurations that must be refuted)
-BROKEN_ONLY = {"DoWorkerDialRacy", "WorkerDialStart", "WorkerDialEnd", "DoEnqueueEvict", "EnqueueEvict", "BuildStale"}
+BROKEN_ONLY = {"DoWorkerDialRacy", "WorkerDialStart", "WorkerDialEnd", "DoEnqueueEvict", "EnqueueEvict", "BuildStale",
+               "DoConnectFailPartial", "ConnectFailPartial", "DoFlushResetWriter", "FlushResetWriter"}
+
+
+def mc_many(run, jobs, pool=4):
+    """run.mc for several small configurations: the TLC processes run side by side (they are dominated by JVM start-up),
+    the bookkeeping of run.mc (evidence, expected refutations) is done by run.mc itself, one after the other, on the
+    finished results"""
+    from concurrent.futures import ThreadPoolExecutor
+    real = run.tlc
+
+    def launch(j):
+        return real("MC_OneWay", cfg=j["cfg"], workers=j.get("workers", 1), timeout=3000,
+                    extra=["-coverage", "1"] if j.get("coverage") else [], heap=None)
+
+    with ThreadPoolExecutor(max_workers=pool) as ex:
+        results = list(ex.map(launch, jobs))
+    try:
+        for j, r in zip(jobs, results):
+            run.tlc = lambda module, cfg=None, _r=r, **kw: _r
+            run.mc("MC_OneWay", cfg=j["cfg"], workers=j.get("workers", 1), expect_violation=j.get("expect"),
+                   coverage=bool(j.get("coverage")))
+    finally:
+        run.__dict__.pop("tlc", None)
+    return results
 
 
 def zero_actions(out):
@@ -76,11 +109,15 @@ def body(run):
     th = run.thorough()
     w = run.pick(4, 16)
     # ---- (M)
-    r1 = run.mc("MC_OneWay", cfg="MC_OneWay_thorough.cfg" if th else "MC_OneWay.cfg", coverage=True, workers=w)
-    r2 = run.mc("MC_OneWay", cfg="MC_OneWay_queue_thorough.cfg" if th else "MC_OneWay_queue.cfg", coverage=True, workers=w)
-    # configuration changes between sends (license, capacity, servers; field and ApplyConfig)
-    r1c = run.mc("MC_OneWay", cfg="MC_OneWay_cfg_thorough.cfg" if th else "MC_OneWay_cfg.cfg", coverage=True, workers=w)
-    r2c = run.mc("MC_OneWay", cfg="MC_OneWay_qcfg_thorough.cfg" if th else "MC_OneWay_qcfg.cfg", coverage=True, workers=w)
+    # direct and queue mode; with configuration changes between sends (license, capacity, servers; field and ApplyConfig)
+    if th:
+        r1 = run.mc("MC_OneWay", cfg="MC_OneWay_thorough.cfg", coverage=True, workers=w)
+        r2 = run.mc("MC_OneWay", cfg="MC_OneWay_queue_thorough.cfg", coverage=True, workers=w)
+        r1c = run.mc("MC_OneWay", cfg="MC_OneWay_cfg_thorough.cfg", coverage=True, workers=w)
+        r2c = run.mc("MC_OneWay", cfg="MC_OneWay_qcfg_thorough.cfg", coverage=True, workers=w)
+    else:
+        r1, r2, r1c, r2c = mc_many(run, [dict(cfg=c, workers=w, coverage=True) for c in
+                                         ("MC_OneWay.cfg", "MC_OneWay_queue.cfg", "MC_OneWay_cfg.cfg", "MC_OneWay_qcfg.cfg")], pool=4)
     z1, z2 = zero_actions(r1["out"]) & zero_actions(r1c["out"]), zero_actions(r2["out"]) & zero_actions(r2c["out"])
     vac = ((z1 - MODE_ONLY["direct"]) | (z2 - MODE_ONLY["queue"]) | (z1 & z2)) - BROKEN_ONLY
     run.extra["mc_actions_never_taken"] = sorted(vac)
@@ -89,13 +126,23 @@ def body(run):
     if th:
         run.mc("MC_OneWay", cfg="MC_OneWay_direct4.cfg", workers=w)
         run.mc("MC_OneWay", cfg="MC_OneWay_queue4.cfg", workers=w)
-    run.mc("MC_OneWay", cfg="MC_OneWay_live.cfg", workers=w)
-    run.mc("MC_OneWay", cfg="MC_OneWay_qlive.cfg", workers=w)
-    run.mc("MC_OneWay", cfg="MC_OneWay_nolock.cfg", expect_violation="MutualExclusion", workers=1)
-    run.mc("MC_OneWay", cfg="MC_OneWay_keepwriter.cfg", expect_violation="FreshStart", workers=1)
-    run.mc("MC_OneWay", cfg="MC_OneWay_wdial.cfg", expect_violation="NoLossSafe", workers=1)
-    run.mc("MC_OneWay", cfg="MC_OneWay_stalelic.cfg", expect_violation="HeaderRight", workers=1)
-    run.mc("MC_OneWay", cfg="MC_OneWay_evict.cfg", expect_violation="NoLossSafe", workers=1)
+        # two collector addresses: with a configuration change (one sender), and with two senders
+        run.mc("MC_OneWay", cfg="MC_OneWay_multi_thorough.cfg", workers=w)
+        run.mc("MC_OneWay", cfg="MC_OneWay_multi2_thorough.cfg", workers=w)
+    # small configurations side by side: liveness, two collector addresses + stalls, the broken designs
+    mc_many(run, [
+        dict(cfg="MC_OneWay_live.cfg", workers=2),
+        dict(cfg="MC_OneWay_qlive.cfg", workers=2),
+        dict(cfg="MC_OneWay_multi.cfg", workers=2),
+        dict(cfg="MC_OneWay_qmulti.cfg", workers=2),
+        dict(cfg="MC_OneWay_nolock.cfg", expect="MutualExclusion"),
+        dict(cfg="MC_OneWay_keepwriter.cfg", expect="FreshStart"),
+        dict(cfg="MC_OneWay_wdial.cfg", expect="NoLossSafe"),
+        dict(cfg="MC_OneWay_stalelic.cfg", expect="HeaderRight"),
+        dict(cfg="MC_OneWay_evict.cfg", expect="NoLossSafe"),
+        dict(cfg="MC_OneWay_dialpart.cfg", expect="Recovers"),
+        dict(cfg="MC_OneWay_resetwriter.cfg", expect="FramesWhole"),
+    ], pool=run.pick(4, 6))
 
     # ---- (A) + (B)
     out, meta = run.drive("c06", timeout=run.pick(600, 2400))
@@ -120,6 +167,8 @@ def body(run):
     run.selftest(out, rest, gen="sac", dfs=True, field="plen")
     run.selftest(out, rest, gen="reconf", dfs=True, field="obs_lic")
     run.selftest(out, rest, gen="qfull", dfs=True, field="ok")
+    run.selftest(out, rest, gen="multi", dfs=True, field="addr")
+    run.selftest(out, rest, gen="stall", dfs=True, field="tmo")
     run.assumptions += [
         "the collector's record of every connection (frames parsed with encoding/binary, payload digests with crypto/sha256, "
         "how it ended the connection) is given to the specification as a prophecy; kernel timing is not observable, so "
@@ -127,6 +176,18 @@ def body(run):
         "hook events are emitted by the client itself under the send lock (direct mode) or by its single drainer (queue mode) and "
         "ordered by one atomic counter taken under the scenario lock; no wall-clock ordering across goroutines",
         "listener changes are made only while no dial can be in progress (all senders joined, or the client parked in a blocking hook)",
+        "several collectors: every collector is a scripted listener of its own on its own loopback port; the k-th successful dial "
+        "a collector answered is the k-th connection it accepted (the client dials one server at a time), which is how the "
+        "collectors' records are put into the order of the client's dials; a dial to a listening loopback collector succeeds and "
+        "a dial to a port whose listener is closed is refused (the port stays reserved), so a failed dial while a configured "
+        "collector is listening is the client's doing; the background worker is not run against several collectors",
+        "stalls: the collector stops reading at a scripted byte position and goes on when the scenario says so (no wall clock); "
+        "the client's write deadline (exported field Timeout, also its dial timeout) is shortened to 120 ms by assignment only "
+        "for the sends that go into the stalling connection (a connection exists: none of them dials) and set to 10 s before "
+        "any other send; whether a write failed because its deadline expired is taken from the error the client got (tmo) -- "
+        "a deadline that expires although the collector reads (machine load) is therefore a stall to the specification too "
+        "and can only cost detection; stalls are exercised in direct mode and with SendAndClear, not with the background "
+        "worker (it re-dials on its own, which must not happen under the shortened deadline)",
         "queue mode: accepted enqueues are placed in the order the drainer dequeued them, no earlier than their call; the "
         "specification rejects an order that contradicts real time (Tick) and a dequeue that is not the head of the queue; "
         "a full queue is exercised only with ONE producer (every entry point; the drainer not running, parked inside a send or "
